@@ -30,8 +30,9 @@ def concrete_ri(compiled, argv, W, checked=True, max_loop=2000):
     prog = assemble(compiled.lines, conc_argspec(compiled, argv))
     vm = VM(prog)   # only to obtain vm.inputs in the same shape as the symbolic run
     ri = RI(compiled.ast, compiled.env, W, ri_args(compiled, vm.inputs, W), checked=checked, max_loop=max_loop, max_calls=200)
-    from .ri import preemptive_functions
+    from .ri import preemptive_functions, parsed_block_counts
     ri.preemptive = preemptive_functions(compiled.src)
+    ri.parsed_counts = parsed_block_counts(compiled.src)
     res = ri.run_all()
     if len(res) != 1:
         return 'multiple', ()
@@ -143,7 +144,9 @@ def replay(case, compiled, argv, m, max_steps=400000):
     if any((not isinstance(x[1], (int, str))) for x in exp):
         return None     # oracle output depends on an uninitialised value: undefined by the README
     what = 'compiled program differs from the source semantics'
-    if p.kind == 'halt':
+    if kind == 'dropped-code-reached':
+        what = 'the compiler discarded code as unreachable that the source semantics reaches on this input'
+    elif p.kind == 'halt':
         what = 'compiled program halts (committed halt)'
     elif p.kind == 'unspecified':
         what = 'compiled program reaches ISA-unspecified behaviour: %s' % p.info
